@@ -35,6 +35,26 @@ pub struct Obs {
     pub text: String,
 }
 
+/// how the custom key hands its text to the formatter: 0 = one write_str, 1 = write_char per
+/// character, 2 = formatted with `{}` per character (Display for char)
+pub fn obs_write(w: &mut dyn std::fmt::Write, text: &str, mode: u64) {
+    match mode % 3 {
+        0 => {
+            let _ = w.write_str(text);
+        }
+        1 => {
+            for c in text.chars() {
+                let _ = w.write_char(c);
+            }
+        }
+        _ => {
+            for c in text.chars() {
+                let _ = write!(w, "{}", c);
+            }
+        }
+    }
+}
+
 impl ProgressTracker for Obs {
     fn clone_box(&self) -> Box<dyn ProgressTracker> {
         Box::new(self.clone())
@@ -52,7 +72,9 @@ impl ProgressTracker for Obs {
             sh.writes.push((state.pos(), state.len(), state.is_finished()));
             sh.write_flushes.push(f);
         }
-        let _ = w.write_str(&self.text);
+        // the write mode is encoded in the first byte of the shared ticks' parity-free field: keep
+        // it simple and derive it from the text length so that it is deterministic per text
+        obs_write(w, &self.text, self.text.len() as u64);
     }
 }
 
@@ -578,6 +600,11 @@ impl Stage {
             self.skipped_ops += 1;
             return res;
         }
+        if op.k == "retarget_hidden" && self.rules.transcript {
+            res.skipped = true;
+            self.skipped_ops += 1;
+            return res;
+        }
         let a = op.n1();
         let text = op.s0().to_string();
         let term = self.term.clone();
@@ -585,13 +612,29 @@ impl Stage {
         let was_finished = self.bars[b].abs.finished();
         let mut dropped_now = false;
         let mut new_style: Option<ProgressStyle> = None;
+        let via_getter = k == "set_style" && a % 2 == 1;
         if k == "set_style" {
             let obs_text = op.s.get(1).cloned().unwrap_or_default();
-            match make_style(&text, &self.bars[b].obs, &obs_text) {
-                Ok(s) => new_style = Some(s),
-                Err(e) => {
+            if via_getter {
+                // pb.style().template(..): the custom key (and its text) of the current style is kept
+                if let Err(e) = make_style(&text, &self.bars[b].obs, "") {
                     r.harness_error = Some(format!("template rejected: {e}"));
                     return res;
+                }
+                match pb.style().template(&text) {
+                    Ok(s) => new_style = Some(s),
+                    Err(e) => {
+                        r.harness_error = Some(format!("template rejected: {e}"));
+                        return res;
+                    }
+                }
+            } else {
+                match make_style(&text, &self.bars[b].obs, &obs_text) {
+                    Ok(s) => new_style = Some(s),
+                    Err(e) => {
+                        r.harness_error = Some(format!("template rejected: {e}"));
+                        return res;
+                    }
                 }
             }
         }
@@ -616,6 +659,12 @@ impl Stage {
         let mp = self.mp.clone();
         let pr = call(|| match k {
             "tick" => pb.tick(),
+            "burn" => {
+                // many ordinary redraw requests at one instant: exhausts a refresh limiter
+                for _ in 0..a.min(60) {
+                    pb.tick();
+                }
+            }
             "inc" => pb.inc(a),
             "dec" => pb.dec(a),
             "set_position" => pb.set_position(a),
@@ -651,6 +700,7 @@ impl Stage {
                     mp.remove(&pb);
                 }
             }
+            "retarget_hidden" => pb.set_draw_target(ProgressDrawTarget::hidden()),
             "iter_exhaust" => {
                 let n = a as usize;
                 let it = pb.wrap_iter(0..n);
@@ -689,7 +739,9 @@ impl Stage {
                 "inc_length" => abs.len = abs.len.map(|l| l.saturating_add(a)),
                 "set_style" => {
                     abs.template = text.clone();
-                    abs.obs_text = op.s.get(1).cloned().unwrap_or_default();
+                    if !via_getter {
+                        abs.obs_text = op.s.get(1).cloned().unwrap_or_default();
+                    }
                 }
                 "set_tab_width" => abs.tab_width = a as usize,
                 "reset" => {
@@ -750,6 +802,11 @@ impl Stage {
         } else if k == "suspend" {
             // the closure runs even for a hidden bar and writes to the terminal itself
             self.push_log(&text, false);
+        }
+        if k == "retarget_hidden" {
+            // only used without the transcript oracle (C18): the bar leaves its target
+            self.bars[b].abs.removed = true;
+            self.members.retain(|x| *x != b);
         }
         if k == "mp_remove" && self.multi && self.bars[b].in_mp && !self.bars[b].abs.removed {
             self.bars[b].abs.removed = true;
